@@ -58,8 +58,11 @@ def face_normals(mesh : SurfaceMesh, name="normals", persistent:bool=True, dense
     else:
         normals = ArrayAttribute(float, len(mesh.faces), 3) if dense else Attribute(float, 3)
     for iT,T in enumerate(mesh.faces):
-        pA,pB,pC = (mesh.vertices[u] for u in T[:3])
-        normals[iT] = Vec.normalized(geom.cross(pB-pA, pC-pA))
+        pts = [mesh.vertices[u] for u in T]
+        nT = len(pts)
+        # Newell's formula (sum over all the sides): the plain cross product for triangles, and independent
+        # of which vertex the face starts from for quads and polygons
+        normals[iT] = Vec.normalized(sum(geom.cross(pts[i], pts[(i+1)%nT]) for i in range(nT)))
     return normals
 
 @allowed_mesh_types(SurfaceMesh, VolumeMesh)
